@@ -272,7 +272,8 @@ fn main() {
         violations: violations,
         inconclusive: inconclusive.clone(),
     };
-    let evdir = root.join("evidence");
+    // runs against a deliberately broken tree (bin/mutant.sh) must not overwrite the evidence of the real tree
+    let evdir = std::env::var("ACBVERIF_EVIDENCE_DIR").map(std::path::PathBuf::from).unwrap_or_else(|_| root.join("evidence"));
     let _ = std::fs::create_dir_all(&evdir);
     std::fs::write(evdir.join(format!("{}.json", prop.id)), ev.pretty(1)).expect("write evidence");
     let _ = std::fs::remove_dir_all(&tmp);
